@@ -1146,7 +1146,9 @@ impl Gen<'_> {
 
 /// layouts: (start, len) lists; includes touching regions, 1-byte holes, 1-byte regions, top of the address space
 fn gen_layout(rng: &mut Rng, small: bool) -> Vec<(u64, usize)> {
-    let n = 1 + rng.below(4) as usize;
+    // mostly 1..4 regions; one layout in eight has many (9..40) small ones: whatever a lookup does differently for large
+    // collections (a search instead of a scan, say) has to show there
+    let n = if !small && rng.chance(1, 8) { 9 + rng.below(32) as usize } else { 1 + rng.below(4) as usize };
     let mut out = Vec::new();
     let mut cur: u64 = if small { rng.below(4) } else { *rng.pick(&[0u64, 0, 1, 4096, 0x1000_0000, (1 << 32) - 8, 1 << 40]) };
     for k in 0..n {
